@@ -321,6 +321,10 @@ def check_C04(tier, seed):
     jobs += [("tables", (s, w, st)) for s in range(4) for w in ("", "a", "b", "c") for st in (1, 2)]
     bad = core.replay_parallel(_call_named, jobs)
     out.replayed += nvec
+    # direction B: recorded random programs (histories!) validated by TLC - a result that depends on what was done to another
+    # array of the same dimension objects before breaks "independent of storage order" as a history, not as a single call
+    from .checks_traces import run_traces
+    run_traces(out, "C04", tier)
     out.extra["orbits"] = len(groups)
     out.extra["orbits_with_several_storage_orders"] = sum(1 for vs in groups.values() if len(vs) > 1)
     out.extra["largest_orbit"] = max(len(vs) for vs in groups.values())
